@@ -98,6 +98,8 @@ pub struct C04Cfg {
     /// kernel's sq-thread as an actor.
     pub sqpoll: bool,
     pub polls: usize,
+    /// IORING_SETUP_SINGLE_ISSUER: only the polling thread enters the kernel, every thread still queues.
+    pub single_issuer: bool,
 }
 
 struct C04Shared {
@@ -108,8 +110,8 @@ struct C04Shared {
 }
 
 pub fn c04_threads(cfg: C04Cfg, bound: u32) -> ThHarness {
-    let name = format!("threads-sq{}-c0={:#x}-{}x{}{}", cfg.sq, cfg.c0, cfg.submitters, cfg.per, if cfg.sqpoll { "-sqpoll" } else { "" });
-    let describe = json!({"engine": "schx", "sq": cfg.sq, "c0_sq": cfg.c0, "submitters": cfg.submitters, "submissions_each": cfg.per, "consumer": if cfg.sqpoll {"sq-thread actor"} else {"thread calling Ring::poll"}, "preemption_bound": bound});
+    let name = format!("threads-sq{}-c0={:#x}-{}x{}{}{}", cfg.sq, cfg.c0, cfg.submitters, cfg.per, if cfg.sqpoll { "-sqpoll" } else { "" }, if cfg.single_issuer { "-single-issuer" } else { "" });
+    let describe = json!({"engine": "schx", "sq": cfg.sq, "c0_sq": cfg.c0, "submitters": cfg.submitters, "submissions_each": cfg.per, "consumer": if cfg.sqpoll {"sq-thread actor"} else {"thread calling Ring::poll"}, "single_issuer": cfg.single_issuer, "preemption_bound": bound});
     let cfg = Arc::new(cfg);
     ThHarness {
         name,
@@ -126,6 +128,9 @@ pub fn c04_threads(cfg: C04Cfg, bound: u32) -> ThHarness {
                 if cfg.sqpoll {
                     c = c.with_kernel_thread();
                 }
+                if cfg.single_issuer {
+                    c = c.single_issuer();
+                }
                 let ring = c.build().expect("ring");
                 let sq = ring.sq();
                 let raw = simk::with(|k| k.new_regular_pub());
@@ -135,6 +140,7 @@ pub fn c04_threads(cfg: C04Cfg, bound: u32) -> ThHarness {
             if cfg.sqpoll {
                 simk::with(|k| k.sqpoll_manual = true);
             }
+            let single_issuer = cfg.single_issuer;
             let total = cfg.submitters * cfg.per;
             let mut ops = Vec::new();
             for n in 0..total {
@@ -182,6 +188,10 @@ pub fn c04_threads(cfg: C04Cfg, bound: u32) -> ThHarness {
                     "poller".into(),
                     Box::new(move || {
                         let mut ring = shared.lock().unwrap().0.ring.take().unwrap();
+                        if single_issuer {
+                            // The polling thread is the ring's owner.
+                            simk::with(|k| k.adopt_submitter(0));
+                        }
                         for _ in 0..polls {
                             talloc::track(|| {
                                 let _ = ring.poll(Some(Duration::ZERO));
@@ -194,6 +204,10 @@ pub fn c04_threads(cfg: C04Cfg, bound: u32) -> ThHarness {
             let sq2 = Sendable(sq);
             let judge = Box::new(move |_exec: &Exec| -> Vec<Violation> {
                 let sq = sq2;
+                if single_issuer {
+                    // (The owner carries on: the epilogue plays its part.)
+                    simk::with(|k| k.adopt_submitter(0));
+                }
                 let mut v = sim_violations("C04");
                 let mut g = shared.lock().unwrap();
                 let s = &mut g.0;
